@@ -117,7 +117,7 @@ func roundTrip(c *drv.Ctx, i int64, seed [48]byte, msg []byte, withPath bool, la
 type corpusEntry struct{ Seed, Msg, Kind string }
 
 func loadCorpus() []corpusEntry {
-	f, err := os.Open("/verif/corpus/c07.jsonl")
+	f, err := os.Open(drv.CorpusPath("c07.jsonl"))
 	if err != nil {
 		return nil
 	}
